@@ -1524,7 +1524,9 @@ def gen_C09(rng, tier):
                 ops.append("ra")
         L.append("dv free:%d -- %s ra" % (n, " ".join(ops)))
     # read semantics: all own/partner presence combinations, timestamp orders incl. ties
-    for (t1, t2) in [(1, 2), (2, 2), (3, 2), (I64_MIN, I64_MAX), (-5, -5)]:
+    # timestamp pairs incl. adjacent nanoseconds far from zero (a "newer" decided in f32 seconds cannot tell them apart) and extremes
+    for (t1, t2) in [(1, 2), (2, 2), (3, 2), (I64_MIN, I64_MAX), (-5, -5), (1_000_000_000, 1_000_000_001), (1_000_000_001, 1_000_000_000),
+                     (3_600_000_000_050, 3_600_000_000_000), (-7_200_000_000_000, -7_199_999_999_999), (I64_MAX - 1, I64_MAX), (I64_MIN + 1, I64_MIN)]:
         for so in (0, 1):
             for sp in (0, 1):
                 for co in (0, 1):
